@@ -335,6 +335,7 @@ def run_translation(case):
     emitter = case["emitter"]
     rec = bool(case["recursive"])
     sc = Scratch(case["init"])
+    info_cl = set()
     try:
         root = sc.root
         q = queue.Queue()
@@ -347,6 +348,20 @@ def run_translation(case):
         else:
             f, mod = shims.load_fsevents()
             em = f.FSEventsEmitter(q, watch)
+            if case.get("neighbour"):
+                # another emitter of the same process watches the directory above and has already seen every entry that
+                # exists now (those inside the tree and those that will be moved in later): nothing it knows may leak
+                # into this emitter's idea of the tree
+                q0 = queue.Queue()
+                em0 = f.FSEventsEmitter(q0, ObservedWatch(sc.base, recursive=True))
+                seen = []
+                for dp, dns, fns in os.walk(sc.base):
+                    for n in dns + fns:
+                        pth = os.path.join(dp, n)
+                        stt = os.lstat(pth)
+                        seen.append(mod.NativeEvent(pth, stt.st_ino, F["is_created"] | (F["is_directory"] if os.path.isdir(pth) else F["is_file"]), 0))
+                em0.queue_events(0, seen)
+                info_cl.add("second-emitter-in-process")
         replay = {p: v[0] for p, v in sc.model.tree.items()}
 
         def norm(p):
@@ -356,7 +371,6 @@ def run_translation(case):
                 return ""
             return p[len(root) + 1 :] if p.startswith(root + "/") else None
 
-        info_cl = set()
         nontrivial = False
         for bi, burst in enumerate(case["bursts"]):
             native = []
@@ -393,6 +407,9 @@ def run_translation(case):
                         em._read_events = lambda b=b: [w.WinAPINativeEvent(a, n) for a, n in b]
                         em.queue_events(0)
                     else:
+                        if case.get("neighbour"):
+                            # the watch on the directory above gets the same native events, first
+                            em0.queue_events(0, [mod.NativeEvent(p, ino, fl, 0) for p, ino, fl in b])
                         em.queue_events(0, [mod.NativeEvent(p, ino, fl, 0) for p, ino, fl in b])
                 except Exception as ex:  # noqa: BLE001 - the emitter thread would die with it
                     raise Violation(f"{emitter} emitter recursive={rec}, burst {bi} {burst}: queue_events() raised {ex!r} on the native batch {b}", "emitter-raised:" + type(ex).__name__) from None
@@ -625,6 +642,7 @@ def trans_cases(draw, tier):
     if emitter == "windows":
         case["root_deleted"] = draw(st.integers(0, 3)) == 0
     if emitter == "fsevents":
+        case["neighbour"] = draw(st.booleans())
         case["bytes"] = draw(st.sampled_from([False, False, True]))
         case["coalesce"] = draw(st.booleans())
         case["cuts"] = draw(st.lists(st.integers(1, 4), max_size=4))
@@ -671,7 +689,7 @@ def run_shard(spec):
                     k += 1
                     if k % NSH != i:
                         continue
-                    case = {"emitter": emitter, "recursive": rec, "init": init, "bursts": bursts, "coalesce": emitter == "fsevents" and k % 3 == 0, "cuts": [], "root_deleted": emitter == "windows" and k % 5 == 0}
+                    case = {"emitter": emitter, "recursive": rec, "init": init, "bursts": bursts, "coalesce": emitter == "fsevents" and k % 3 == 0, "cuts": [], "root_deleted": emitter == "windows" and k % 5 == 0, "neighbour": emitter == "fsevents" and k % 2 == 0}
                     if excluded_by(case, known):
                         st_.excluded += 1
                         continue
